@@ -12,12 +12,20 @@ had there (defect D7, fixed in /repo by commit 00d0f01) is kept as the regressio
 Part (ii): whole runs of the real algorithms (see `run_alg`): the acquisition's `forward` is wrapped
 to record what the optimiser saw, the problem is wrapped to record what was evaluated, and the
 model's data is dumped before and after every `run_one_step()`.
+
+Part (iii) (extension): the arithmetic of `ThompsonEntropyDecoupledAcquisition.forward` against
+`Model/Thompson.lean` — in every DecoupledGP evaluation of part (ii) (each recorded `forward` call: the
+cached Pareto mask against the tensor the definition builds from the recorded Thompson samples, the values
+against the definition evaluated at `Float`, 1e-9) and in a direct stream (`kind: "thompson"`) that builds
+the real acquisition on a scripted model list with dyadic Thompson samples (Pareto sets additionally by the
+Lean model of `get_pareto_set`, exact) and checks the optimiser's pick against the model's value table.
 """
 import itertools
 
 import numpy as np
 
 from harness import core
+from harness.props import c07_thompson as _th   # part (iii): Thompson-entropy arithmetic (extension)
 
 TITLE = "acquisition maximisers and model data vs Lean model"
 RULE = ("(i) optimiser tables: (row ids with duplicates, value per id [per objective], costs, q); shapes: "
@@ -26,7 +34,10 @@ RULE = ("(i) optimiser tables: (row ids with duplicates, value per id [per objec
         "rows and at least two different values; distinct by (ids, values, costs, q). "
         "(ii) runs: (algorithm, designs, objective values, cone, batch size, costs, rounds, noise seed); "
         "non-trivial = at least one evaluation with a strict choice (fewer queried than active) or, for "
-        "the evaluate-everything algorithms, an active set that shrank during the run")
+        "the evaluate-everything algorithms, an active set that shrank during the run. "
+        "(iii) thompson: (n Thompson samples in 0..6, m objectives 2..3, K designs 1..6, exact cone, sample shape "
+        "[random | dominant | alternating | fixed-order | duplicate rows], dyadic samples, costs, q); non-trivial = "
+        "at least one design with a prior probability strictly between 0 and C(n,m)/n^m and two different values")
 ASSUMPTIONS = [
     "acquisition values are finite floats (NaN / inf tables are outside the property)",
     "acquisition functions are row-wise: the value of a row does not depend on the other rows "
@@ -211,7 +222,9 @@ def gen(ctx):
 
     # independent sub-streams (both derived from ctx.rng) so that the two parts do not shift each other
     r1, r2 = random.Random(ctx.rng.getrandbits(64)), random.Random(ctx.rng.getrandbits(64))
+    r3 = random.Random(ctx.rng.getrandbits(64))   # drawn after r1, r2: the older streams are unchanged
     yield from gen_tables(ctx, r1)
+    yield from _th.gen_thompson(ctx, r3)
     yield from gen_runs(ctx, r2)
 
 
@@ -577,10 +590,17 @@ class _Forwards:
 
             def make(real, cname):
                 def forward(acq, x):
-                    v = real(acq, x)
+                    th = _th.begin(acq) if cname == "ThompsonEntropyDecoupledAcquisition" else None
+                    try:
+                        v = real(acq, x)
+                    finally:
+                        if th is not None:
+                            _th.end(acq, th)
                     self.calls.append({"cls": cname, "x": np.array(x, dtype=float).copy(),
                                        "j": getattr(acq, "evaluation_index", None),
                                        "v": np.array(v, dtype=float).reshape(-1).copy()})
+                    if th is not None:
+                        self.calls[-1]["th"] = _th.record(acq, th)
                     return v
                 return forward
 
@@ -1039,6 +1059,7 @@ def _check_decoupled(ctx, case, name, alg, rec, fcalls, pcalls, adds):
     m = alg.m
     costs = None if alg.costs is None else np.asarray(alg.costs, dtype=float)
     if kind == "thompson":
+        _th.check_calls(ctx, case, name, fcalls)   # values / mask against Model/Thompson.lean
         return _check_decoupled_tail(ctx, case, name, alg, rec, fcalls, pcalls, adds, None, None)
     firsts = {}
     for c in fcalls:
@@ -1302,6 +1323,7 @@ def _check_naive(ctx, case, alg, proxy, before):
         _viol(ctx, "sample-count", "NaiveElimination: sample_count did not advance by the number of designs", case, kind="F")
 
 
+
 def run_case(ctx, case):
     kind = case["kind"]
     if kind == "disc":
@@ -1310,5 +1332,7 @@ def run_case(ctx, case):
         run_dec(ctx, case)
     elif kind == "run":
         run_alg(ctx, case)
+    elif kind == "thompson":
+        _th.run_thompson(ctx, case)
     else:
         raise ValueError(f"unknown case kind {kind!r}")
